@@ -452,7 +452,7 @@ PROPS = {
         "thorough_seeds": 2,
         "rule": "transition tables of all five protocols regenerated by running CanTransitionTo / nextState on the complete domain; "
                 "seeded message sequences (inbound / outbound messages of every type, fresh and reused threads, duplicates, out of "
-                "order, every continue option / stop decision, and in a quarter of the histories a transport fault: the K-th send of the messenger fails) against the real present-proof and issue-credential services "
+                "order, every continue option / stop decision, and in a quarter of the histories a transport fault: the K-th send of the messenger fails); DID Exchange and the legacy Connection protocol between two real agents on an in-process bus, every decision taken - and repeated - through the accept-by-connection-id API, with transport faults; against the real present-proof and issue-credential services "
                 "(v2 and v3); non-trivial = at least two states were announced; distinct (input, outcome) pairs",
         "trusted_base": ["recording messenger / harness-owned store and event channels", "verif hooks VerifSync (listener barrier) "
                          "and the table enumeration exports", "hand-written Execute tables (ppExec, icExec) of the model"],
